@@ -5,6 +5,7 @@ package main
 
 import (
 	"fmt"
+	"sync"
 	"go/ast"
 	"math/big"
 	"go/token"
@@ -59,6 +60,12 @@ type FnExec struct {
 	abstracted bool
 	entry    *State
 	globErrs map[*ssa.Global]*Term
+	crossMode map[string]bool
+	tcMu sync.Mutex
+	curStatic []types.Type
+	boxAxiom map[string]bool
+	topFrame *Frame
+	ghostTypes map[string]types.Type
 }
 
 func (x *FnExec) addFact(t *Term) {
@@ -108,6 +115,8 @@ type loopInfo struct {
 	dec0 *Term
 	phis map[*ssa.Phi]Value
 	st   *State
+	frameKeys []string
+	mods []modLoc
 }
 
 type Frame struct {
@@ -134,7 +143,7 @@ type Frame struct {
 func newFnExec(e *Engine, c *Contract, fn *ssa.Function) *FnExec {
 	x := &FnExec{E: e, tc: NewTermCtx(), top: c, topFn: fn, bv: c.Mode == "bv", noOvf: c.NoOverflow,
 		kindCnt: map[string]int{}, ranged: map[int]bool{}, rangedSl: map[int]bool{}, heapSorts: map[string]Sort{},
-		strConsts: map[string]*Term{}, trustedUsed: map[string]bool{}, typeTags: map[string]int{}, globErrs: map[*ssa.Global]*Term{}}
+		strConsts: map[string]*Term{}, trustedUsed: map[string]bool{}, typeTags: map[string]int{}, globErrs: map[*ssa.Global]*Term{}, crossMode: map[string]bool{}, boxAxiom: map[string]bool{}, ghostTypes: map[string]types.Type{}}
 	return x
 }
 
@@ -250,6 +259,7 @@ func (x *FnExec) verifyFunction() {
 	fn := x.topFn
 	fr := x.newFrame(fn, c)
 	fr.top = true
+	x.topFrame = fr
 	st := x.rootState()
 	x.entry = st
 	fr.entry = st
@@ -521,6 +531,28 @@ func (x *FnExec) enterLoop(fr *Frame, li *loopInfo, ps []stParent, preds []*ssa.
 	for i, inv := range li.spec.Invariants {
 		x.oblige("INV-ENTRY", fmt.Sprintf("loop %d invariant %d on entry: %s", li.ordinal, i+1, inv.Text), g, ev.evalBool(inv.E), 0)
 	}
+	if rb := x.rangeIndexBounds(fr, li, entryPhis); rb != nil {
+		x.obligeNamed("INV-ENTRY", fmt.Sprintf("range.%d", li.ordinal), fmt.Sprintf("loop %d implicit range-index bounds on entry", li.ordinal), g, rb, 0)
+	}
+	// implicit frame invariants: heap components the loop writes keep the entry value of every
+	// location that existed at function entry and is outside the modifies set
+	var frameKeys []string
+	var mods []modLoc
+	if x.top != nil && !x.top.ModAll && x.entry != nil {
+		mods = x.modLocs(x.topFrame, x.entry, x.top, nil, false)
+		for k := range wl {
+			if k != "*" {
+				frameKeys = append(frameKeys, k)
+			}
+		}
+		sort.Strings(frameKeys)
+		for _, k := range frameKeys {
+			if fc := x.frameCond(mods, k, x.entry, pre); fc != nil && !fc.isTrue() {
+				x.obligeNamed("INV-ENTRY", fmt.Sprintf("frame.%d.%s", li.ordinal, k), fmt.Sprintf("loop %d implicit frame invariant on entry for %s", li.ordinal, k), g, fc, 0)
+			}
+		}
+	}
+	li.frameKeys, li.mods = frameKeys, mods
 	// havoc
 	st := pre.child()
 	keys := make([]string, 0, len(wl))
@@ -534,12 +566,19 @@ func (x *FnExec) enterLoop(fr *Frame, li *loopInfo, ps []stParent, preds []*ssa.
 		}
 		st.heap[k] = x.tc.Fresh("Hloop|"+k, x.heapSorts[k])
 	}
-	for a := range cl {
-		st.cells[a] = x.freshVal("cell."+a.Comment, deref(a.Type()))
-	}
 	na := x.tc.Fresh("ALLOCloop", x.refSort())
 	x.addFact(x.intLe(pre.alloc, na))
 	st.alloc = na
+	var cellAllocs []*ssa.Alloc
+	for a := range cl {
+		cellAllocs = append(cellAllocs, a)
+	}
+	sort.Slice(cellAllocs, func(i, j int) bool { return cellAllocs[i].Pos() < cellAllocs[j].Pos() })
+	for _, a := range cellAllocs {
+		cv := x.freshVal("cell."+a.Comment, deref(a.Type()))
+		x.inputFacts(st, cv, deref(a.Type()))
+		st.cells[a] = cv
+	}
 	phis := map[*ssa.Phi]Value{}
 	for _, in := range b.Instrs {
 		phi, ok := in.(*ssa.Phi)
@@ -557,12 +596,65 @@ func (x *FnExec) enterLoop(fr *Frame, li *loopInfo, ps []stParent, preds []*ssa.
 	for _, inv := range li.spec.Invariants {
 		x.assume(g, ev2.evalBool(inv.E))
 	}
+	for _, k := range frameKeys {
+		if fc := x.frameCond(mods, k, x.entry, st); fc != nil {
+			x.assume(g, fc)
+		}
+	}
+	if rb := x.rangeIndexBounds(fr, li, phis); rb != nil {
+		x.assume(g, rb)
+	}
 	li.phis = phis
 	li.st = st
 	if li.spec.Decreases != nil {
 		li.dec0 = ev2.eval(li.spec.Decreases.E).v.(*Term)
 	}
 	return st, g
+}
+
+// rangeIndexBounds returns, for a slice-range loop header, the invariant -1 <= rangeindex <= len-1
+// evaluated for the given phi values (nil if the header is not of that shape).
+func (x *FnExec) rangeIndexBounds(fr *Frame, li *loopInfo, phis map[*ssa.Phi]Value) *Term {
+	var out []*Term
+	for _, in := range li.header.Instrs {
+		phi, ok := in.(*ssa.Phi)
+		if !ok {
+			break
+		}
+		if phi.Comment != "rangeindex" {
+			continue
+		}
+		var inc *ssa.BinOp
+		for _, r := range *phi.Referrers() {
+			if b, ok := r.(*ssa.BinOp); ok && b.Op == token.ADD && b.X == phi && b.Block() == li.header {
+				inc = b
+			}
+		}
+		if inc == nil {
+			continue
+		}
+		for _, r := range *inc.Referrers() {
+			if c, ok := r.(*ssa.BinOp); ok && c.Op == token.LSS && c.X == inc && c.Block() == li.header {
+				lv, ok := fr.vals[c.Y]
+				if !ok {
+					if _, isc := c.Y.(*ssa.Const); !isc {
+						continue
+					}
+					lv = fr.val(c.Y)
+				}
+				l := lv.(*Term)
+				p := phis[phi].(*Term)
+				one := x.bigConst(big.NewInt(1), phi.Type())
+				m1 := x.bigConst(big.NewInt(-1), phi.Type())
+				lm1, _ := x.arith(token.SUB, l, one, phi.Type(), true)
+				out = append(out, x.compare(token.LEQ, m1, p, phi.Type()), x.compare(token.LEQ, p, lm1, phi.Type()))
+			}
+		}
+	}
+	if len(out) == 0 {
+		return nil
+	}
+	return x.tc.And(out...)
 }
 
 func (x *FnExec) closeLoop(fr *Frame, li *loopInfo, from *ssa.BasicBlock) {
@@ -585,6 +677,14 @@ func (x *FnExec) closeLoop(fr *Frame, li *loopInfo, from *ssa.BasicBlock) {
 	for i, inv := range li.spec.Invariants {
 		x.oblige("INV-PRES", fmt.Sprintf("loop %d invariant %d preserved: %s", li.ordinal, i+1, inv.Text), g, ev.evalBool(inv.E), 0)
 	}
+	if rb := x.rangeIndexBounds(fr, li, phis); rb != nil {
+		x.obligeNamed("INV-PRES", fmt.Sprintf("range.%d.%d", li.ordinal, from.Index), fmt.Sprintf("loop %d implicit range-index bounds preserved", li.ordinal), g, rb, 0)
+	}
+	for _, k := range li.frameKeys {
+		if fc := x.frameCond(li.mods, k, x.entry, st); fc != nil && !fc.isTrue() {
+			x.obligeNamed("INV-PRES", fmt.Sprintf("frame.%d.%s.%d", li.ordinal, k, from.Index), fmt.Sprintf("loop %d implicit frame invariant preserved for %s", li.ordinal, k), g, fc, 0)
+		}
+	}
 	if li.spec.Decreases != nil {
 		d1 := ev.eval(li.spec.Decreases.E).v.(*Term)
 		x.oblige("DECR", fmt.Sprintf("loop %d measure decreases and is bounded: %s", li.ordinal, li.spec.Decreases.Text), g,
@@ -605,6 +705,21 @@ func (x *FnExec) discover(fr *Frame, li *loopInfo) (map[string]bool, map[*ssa.Al
 		saveDone[k] = v
 	}
 	nrets := len(fr.rets)
+	// facts produced while discovering are about throw-away symbols: drop them afterwards (and the
+	// de-duplication tables that would otherwise suppress their re-creation in the real pass)
+	saveRanged, saveRangedSl := copyIntSet(x.ranged), copyIntSet(x.rangedSl)
+	saveStr := map[string]*Term{}
+	for k, v := range x.strConsts {
+		saveStr[k] = v
+	}
+	saveErr := map[*ssa.Global]*Term{}
+	for k, v := range x.globErrs {
+		saveErr[k] = v
+	}
+	saveBox := map[string]bool{}
+	for k, v := range x.boxAxiom {
+		saveBox[k] = v
+	}
 	x.writeLog, x.cellLog = map[string]bool{}, map[*ssa.Alloc]bool{}
 	fr.disc[li.header] = true
 	for _, b := range fr.rpo {
@@ -624,11 +739,20 @@ func (x *FnExec) discover(fr *Frame, li *loopInfo) (map[string]bool, map[*ssa.Al
 		}
 	}
 	x.obls, x.assumes = x.obls[:nob], x.assumes[:nas]
-	_ = nfa // facts are universally true statements; keeping them is sound
+	x.facts = x.facts[:nfa]
+	x.ranged, x.rangedSl, x.strConsts, x.globErrs, x.boxAxiom = saveRanged, saveRangedSl, saveStr, saveErr, saveBox
 	x.kindCnt = saveCnt
 	fr.done = saveDone
 	fr.rets = fr.rets[:nrets]
 	return wl, cl
+}
+
+func copyIntSet(m map[int]bool) map[int]bool {
+	r := make(map[int]bool, len(m))
+	for k, v := range m {
+		r[k] = v
+	}
+	return r
 }
 
 // ---------- instructions ----------
@@ -785,6 +909,18 @@ func (x *FnExec) execInstr(fr *Frame, in ssa.Instruction, st *State, g *Term) *T
 	return g
 }
 
+func (x *FnExec) asBoxable(v Value) (*Term, bool) {
+	switch p := v.(type) {
+	case *Term:
+		return p, true
+	case *Place:
+		if p.kind == pkHeap && len(p.path) == 0 && p.aidx == nil {
+			return p.ref, true
+		}
+	}
+	return nil, false
+}
+
 func (x *FnExec) zeroLeaf(l leaf) *Term { return x.zeroScalar(l.sort) }
 
 func (x *FnExec) toRefSort(t *Term, typ types.Type) *Term {
@@ -927,7 +1063,7 @@ func (x *FnExec) loadGlobal(st *State, gl *ssa.Global) Value {
 	if c, ok := x.E.constGlobal[gl]; ok {
 		return x.constTerm(c.Value, t)
 	}
-	if x.E.errGlobal[gl] {
+	if x.E.errGlobal[gl] || (isErrorType(t) && gl.Pkg != nil && !strings.HasPrefix(gl.Pkg.Pkg.Path(), repoMod)) {
 		if e, ok := x.globErrs[gl]; ok {
 			return e
 		}
@@ -1128,9 +1264,6 @@ func (x *FnExec) makeInterface(fr *Frame, st *State, v Value, t types.Type) Valu
 	if _, isIface := t.Underlying().(*types.Interface); isIface {
 		return v
 	}
-	id := tc.Fresh("iface", x.refSort())
-	x.addFact(tc.Not(tc.Eq(id, x.refConst(0))))
-	x.addFact(tc.Eq(x.ifaceType(id), x.typeTag(t)))
 	// payload leaves
 	var ls []leaf
 	func() {
@@ -1144,8 +1277,28 @@ func (x *FnExec) makeInterface(fr *Frame, st *State, v Value, t types.Type) Valu
 		}()
 		x.leaves(t, "", &ls)
 	}()
+	var id *Term
+	if pv, ok := x.asBoxable(v); ok && len(ls) == 1 {
+		// single-scalar payload: the interface value is a function of the payload (Go interface equality)
+		id = tc.UF("box:"+typeKey(t), x.refSort(), pv)
+		v = pv
+		if !x.boxAxiom[typeKey(t)] {
+			// boxing is injective and tagged: unbox(box(v)) == v, typeof(box(v)) == tag, box(v) != nil
+			x.boxAxiom[typeKey(t)] = true
+			bv := tc.BVar("v", pv.sort)
+			b := tc.UF("box:"+typeKey(t), x.refSort(), bv)
+			x.addFact(tc.Forall([]*Term{bv}, tc.And(tc.Eq(tc.UF("unbox:"+typeKey(t)+ls[0].path, ls[0].sort, b), bv),
+				tc.Eq(x.ifaceType(b), x.typeTag(t)), tc.Not(tc.Eq(b, x.refConst(0))))))
+		}
+	} else {
+		id = tc.Fresh("iface", x.refSort())
+	}
+	if !id.bound {
+		x.addFact(tc.Not(tc.Eq(id, x.refConst(0))))
+		x.addFact(tc.Eq(x.ifaceType(id), x.typeTag(t)))
+	}
 	flat := x.flatten(v, t)
-	if flat != nil && len(flat) == len(ls) {
+	if flat != nil && len(flat) == len(ls) && !id.bound {
 		for i, l := range ls {
 			x.addFact(tc.Eq(tc.UF("unbox:"+typeKey(t)+l.path, l.sort, id), flat[i]))
 		}
